@@ -644,16 +644,16 @@ def check_basics(ctx, cr, s):
             fn = fn_of(cr, path, nm, (), tr)
             okey = "%s::%s" % (path, nm)
             if fn is None:
-                ctx.ob(props, okey, False, "%s() missing" % nm)
+                ctx.ob({"C06"}, okey, False, "%s() missing although a default was declared" % nm)
                 continue
             r = fn["runs"][0] if fn.get("runs") else None
             o, prob = single_ret(r) if r else (None, "no run")
             if o is None:
-                ctx.ob(props, okey, None, prob)
+                ctx.ob({"C06"}, okey, None, prob)
                 continue
             bits = raw_of_struct_val(o["v"])
             d = "unexpected shape" if bits is None else diff_bits(bits, exp)
-            ctx.ob(props, okey, d is None, d or "")
+            ctx.ob({"C06"}, okey, d is None, d or "")
     # layout and Copy
     adt = cr["_adt"].get(path)
     okey = path + "|layout"
